@@ -29,6 +29,8 @@ META = dict(
     bounds=dict(connectors='<= 3x3', degree_values='<= 3 in lists, minima <= 2', matrix_entries='any non-negative integer (unbounded)',
                 path_cap=20000, query_timeout_s=20),
     outside=['negative matrix entries', 'more than 3 connectors per side',
+             'histories other than: counting before listing, a filtered iteration or an abandoned iteration before a full listing, '
+             'two different settings (one of five one-step variants) enumerated one after the other in one cache (cache_pair instances, concrete)',
              'the enumerator and counter themselves run concretely: their output is compared with the specification by '
              'the solver (Q2), their code is not executed symbolically'],
     stubs=['numba kernels executed from .py_func (jitted versions cross-checked on one model per path)',
